@@ -93,7 +93,7 @@ def c06(ctx):
                 rep.ob("C06.R2", "unsafe::%s::%s[%s]" % (fn.path, s["detail"], prof), ok,
                        "" if ok else "%s uses the unsafe operation %s: it may create a reference or write through a pointer" % (fn.path, s.get("callee") or s["detail"]),
                        fn.loc(s["line"]), how="only asserts a value's shape")
-    rep.floor("C06.R2", n_unsafe, 8, "unsafe operations in src/exec (both profiles)")
+    rep.floor("C06.R2", n_unsafe, 4, "unsafe operations in src/exec (both profiles)")
     # ---- R3
     n_mm = 0
     for fn in F.all_bodies(tests=False):
@@ -240,10 +240,10 @@ def c06(ctx):
                    "" if ok else ("%s evaluates an expression (line %s) after a write to the target has happened (line %s): later operands see the partially "
                                   "updated value" % (fn.path, fn.term(late[0])["line"], wt["line"]) if late else "%s writes inside a loop" % fn.path),
                    fn.loc(wt["line"]), how="no evaluation reachable from the write")
-    rep.floor("C06.R7", n7, 10, "write sites in ExecStmt methods")
+    rep.floor("C06.R7", n7, 6, "write sites in ExecStmt methods")
     # ---- R8 single addressing (EVAL-ONCE)
     from . import evalonce
-    evalonce.run(ctx, "C06.R8", evalonce.REVIEWED, 40)
+    evalonce.run(ctx, "C06.R8", evalonce.REVIEWED, 25)
     # ---- R9 nested subscripts are applied innermost-first
     subscript_order(ctx)
 
